@@ -17,6 +17,12 @@
 (*    point between its invocation and its response (the state before any  *)
 (*    mutating call still in flight at the invocation included), i.e. the  *)
 (*    history is linearizable; torn values never match any observation.    *)
+(*    States are numbered in the order the mutating calls take effect; the *)
+(*    state a read is explained by may not be older than one explained to  *)
+(*    a read that had returned before it was invoked (one total order).    *)
+(*  - while the variance window is filling (C16 leaves the value open) the *)
+(*    sequential observation is the one a replica of the object, driven by *)
+(*    the writer alone with the same calls, reports (bit pattern).         *)
 (***************************************************************************)
 EXTENDS RateCheckup, TLC, Json, IOUtils
 
@@ -32,33 +38,37 @@ VARIABLES l, okind,   \* object kind: "sv" "sov" "avg" "var" "ck" "rm" "rc"
           th,         \* thread -> [m, arg, depth, nlk, exp, acc]
           pre,        \* thread -> observations of the object just before that thread's in-flight mutating call took effect
           heldmx,     \* thread -> the mutexes (offsets inside the object) it holds, in acquisition order
+          ver, gmax,  \* number of mutating calls that have taken effect; newest state explained to a completed read
+          vbits,      \* what getVariance reports sequentially while the window is filling (bit pattern from the replica)
           edges       \* observed nesting: <<a, b>> = some thread acquired b while holding a   (spec/LockOrder.tla)
-tvars == <<rcvars, ssv, l, okind, reg, lastAt, th, pre, heldmx, edges>>
+tvars == <<rcvars, ssv, l, okind, reg, lastAt, th, pre, heldmx, ver, gmax, vbits, edges>>
 
 Mutators == {"store", "consume", "update", "reset", "evaluate", "timeout", "stamp", "hb"}
 NoObs == [none |-> TRUE]
-Idle == [m |-> "idle", arg |-> 0, depth |-> 0, nlk |-> 0, exp |-> 0, acc |-> {}]
+Idle == [m |-> "idle", arg |-> 0, vb |-> <<0, 0, 0>>, floor |-> 0, depth |-> 0, nlk |-> 0, exp |-> 0, acc |-> {}]
+MaxOf2(a, b) == IF a > b THEN a ELSE b
 
 (* every read-only observation of the current object state, by reader method *)
 AvgObs == IF Len(win) = 0 THEN <<TRUE, 0>> ELSE <<FALSE, (SS!SumSeq(win) * 840) \div Len(win)>>   \* 840 = lcm(1..8) >= W
-VarObs == IF cnt >= sW THEN <<TRUE, SS!VarNum>> ELSE <<FALSE, 0>>
+VarObs == IF cnt >= sW THEN <<TRUE, SS!VarNum, <<0, 0, 0>>>> ELSE <<FALSE, 0, vbits>>
 AllObs == [load |-> reg, getAverage |-> AvgObs, isAvailable |-> (cnt >= sW), getVariance |-> VarObs, getReport |-> report]
 AllObsNext == [load |-> reg', getAverage |-> (IF Len(win') = 0 THEN <<TRUE, 0>> ELSE <<FALSE, (SS!SumSeq(win') * 840) \div Len(win')>>),
                isAvailable |-> (cnt' >= sW'),
-               getVariance |-> (IF cnt' >= sW' THEN <<TRUE, sW' * SS!SumSeq(SS!Squares(win')) - SS!SumSeq(win') * SS!SumSeq(win')>> ELSE <<FALSE, 0>>),
+               getVariance |-> (IF cnt' >= sW' THEN <<TRUE, sW' * SS!SumSeq(SS!Squares(win')) - SS!SumSeq(win') * SS!SumSeq(win'), <<0, 0, 0>>>>
+                                                ELSE <<FALSE, 0, vbits'>>),
                getReport |-> report']
 
 TraceInit == /\ RcInitWith("eq", 8, 0, 1000) /\ SS!InitWith(1)
              /\ l = 1 /\ okind = "sv" /\ reg = 0 /\ lastAt = 0
              /\ th = [t \in {0} |-> Idle] /\ pre = [t \in {0} |-> NoObs]
-             /\ heldmx = [t \in {0} |-> <<>>] /\ edges = {}
+             /\ heldmx = [t \in {0} |-> <<>>] /\ edges = {} /\ ver = 0 /\ gmax = 0 /\ vbits = <<-1, 0, 0>>
 IsEvent(e) == l <= Len(Tr) /\ Tr[l].e = e /\ l' = l + 1
 
 TReset ==
   /\ IsEvent("Reset")
   /\ okind' = Tr[l].kind /\ reg' = 0 /\ lastAt' = 0
   /\ th' = [t \in 0..(Tr[l].threads - 1) |-> Idle] /\ pre' = [t \in 0..(Tr[l].threads - 1) |-> NoObs]
-  /\ heldmx' = [t \in 0..(Tr[l].threads - 1) |-> <<>>] /\ edges' = {}
+  /\ heldmx' = [t \in 0..(Tr[l].threads - 1) |-> <<>>] /\ edges' = {} /\ ver' = 0 /\ gmax' = 0 /\ vbits' = <<-1, 0, 0>>
   /\ SS!SetUp(Tr[l].W)
   /\ IF Tr[l].kind \in {"rm", "rc"} THEN RcSetUp(Tr[l].ck, Tr[l].a, Tr[l].b, 1000)
                                     ELSE RmSetUp(4, 1000) /\ SetUp(Tr[l].ck, Tr[l].a, Tr[l].b, "stale")
@@ -67,10 +77,10 @@ TInv ==
   /\ IsEvent("inv")
   /\ LET t == Tr[l].t  m == Tr[l].m IN
      /\ th[t].m = "idle"
-     /\ th' = [th EXCEPT ![t] = [m |-> m, arg |-> Tr[l].arg, depth |-> 0, nlk |-> 0, exp |-> 0,
+     /\ th' = [th EXCEPT ![t] = [m |-> m, arg |-> Tr[l].arg, vb |-> Tr[l].vb, floor |-> gmax, depth |-> 0, nlk |-> 0, exp |-> 0,
                                   acc |-> IF m \in Mutators THEN {}
-                                          ELSE {AllObs[m]} \cup {pre[u][m] : u \in {v \in DOMAIN pre : pre[v] # NoObs}}]]
-  /\ UNCHANGED <<rcvars, ssv, okind, reg, lastAt, pre, heldmx, edges>>
+                                          ELSE {<<ver, AllObs[m]>>} \cup {<<pre[u].ver, pre[u].obs[m]>> : u \in {v \in DOMAIN pre : pre[v] # NoObs}}]]
+  /\ UNCHANGED <<rcvars, ssv, okind, reg, lastAt, pre, heldmx, ver, gmax, vbits, edges>>
 
 (* the sequential effect of the mutating call of thread t, with its expected return value *)
 Effect(t, exp) ==
@@ -97,14 +107,16 @@ TLock ==
      /\ IF th[t].m \in Mutators /\ th[t].nlk = 0
           THEN \E exp \in {-1, 0, 1, 2, 3} \cup {reg} \cup {psum + th[t].arg - lastAt - (IF periods = <<>> THEN 0 ELSE Head(periods)), span} :
                  /\ Effect(t, exp)
-                 /\ pre' = [pre EXCEPT ![t] = AllObs]
+                 /\ ver' = ver + 1
+                 /\ vbits' = IF th[t].m \in {"update", "reset"} THEN th[t].vb ELSE vbits
+                 /\ pre' = [pre EXCEPT ![t] = [ver |-> ver, obs |-> AllObs]]
                  /\ th' = [u \in DOMAIN th |->
                              IF u = t THEN [th[t] EXCEPT !.depth = 1, !.nlk = 1, !.exp = exp]
-                             ELSE IF th[u].m \in (DOMAIN AllObs) THEN [th[u] EXCEPT !.acc = @ \cup {AllObsNext[th[u].m]}]
+                             ELSE IF th[u].m \in (DOMAIN AllObs) THEN [th[u] EXCEPT !.acc = @ \cup {<<ver + 1, AllObsNext[th[u].m]>>}]
                              ELSE th[u]]
           ELSE /\ th' = [th EXCEPT ![t].depth = @ + 1, ![t].nlk = @ + (IF th[t].depth = 0 THEN 1 ELSE 0)]
-               /\ UNCHANGED <<rcvars, ssv, reg, lastAt, pre>>
-  /\ UNCHANGED okind
+               /\ UNCHANGED <<rcvars, ssv, reg, lastAt, pre, ver, vbits>>
+  /\ UNCHANGED <<okind, gmax>>
 
 TUnlock ==
   /\ IsEvent("unlock")
@@ -112,7 +124,7 @@ TUnlock ==
   /\ Len(heldmx[Tr[l].t]) > 0 /\ heldmx[Tr[l].t][Len(heldmx[Tr[l].t])] = Tr[l].mx          \* released in reverse order of acquisition
   /\ heldmx' = [heldmx EXCEPT ![Tr[l].t] = SubSeq(@, 1, Len(@) - 1)]
   /\ th' = [th EXCEPT ![Tr[l].t].depth = @ - 1]
-  /\ UNCHANGED <<rcvars, ssv, okind, reg, lastAt, pre, edges>>
+  /\ UNCHANGED <<rcvars, ssv, okind, reg, lastAt, pre, ver, gmax, vbits, edges>>
 
 Abs(x) == IF x < 0 THEN -x ELSE x
 ValueClose(vs, s) == IF s = 0 THEN vs = 0 ELSE vs > 0 /\ Abs(vs - s) <= s \div 100000 + 1
@@ -120,20 +132,26 @@ ReportMatches(t, r) ==      \* logged report copy t against a report value r of 
   /\ t.status = r.status /\ t.verdict = r.verdict /\ t.has = r.value.has
   /\ r.value.has => IF okind = "rc" THEN ValueClose(t.value, r.value.k) ELSE t.value = r.value.k
 
+(* does the logged result t of read-only method m match the observation o *)
+Matches(m, t, o) ==
+  CASE m = "load" -> ~t.torn /\ t.ret = o
+    [] m = "getAverage" -> t.exact /\ <<t.nan, t.ret>> = o
+    [] m = "isAvailable" -> (t.ret = 1) = o
+    [] m = "getVariance" -> IF o[1] THEN t.exact /\ o[2] = t.ret ELSE o[3] = t.vb
+    [] m = "getReport" -> ReportMatches(t, o)
+
 TRes ==
   /\ IsEvent("res")
   /\ LET t == Tr[l].t  c == th[Tr[l].t] IN
      /\ c.m = Tr[l].m /\ c.depth = 0
      /\ IF c.m \in Mutators
-          THEN c.nlk >= 1 /\ Tr[l].ret = c.exp                       \* guarded, and the sequential result
-          ELSE CASE c.m = "load" -> ~Tr[l].torn /\ Tr[l].ret \in c.acc
-                 [] c.m = "getAverage" -> Tr[l].exact /\ <<Tr[l].nan, Tr[l].ret>> \in c.acc
-                 [] c.m = "isAvailable" -> (Tr[l].ret = 1) \in c.acc
-                 [] c.m = "getVariance" -> \E o \in c.acc : ~o[1] \/ (Tr[l].exact /\ o[2] = Tr[l].ret)
-                 [] c.m = "getReport" -> \E r \in c.acc : ReportMatches(Tr[l], r)
+          THEN c.nlk >= 1 /\ Tr[l].ret = c.exp /\ gmax' = gmax           \* guarded, and the sequential result
+          ELSE LET cand == {p[1] : p \in {q \in c.acc : q[1] >= c.floor /\ Matches(c.m, Tr[l], q[2])}} IN
+               /\ cand # {}
+               /\ gmax' = MaxOf2(gmax, CHOOSE v \in cand : \A w \in cand : v <= w)       \* the oldest admissible state: least constraining
      /\ th' = [th EXCEPT ![t] = Idle]
      /\ pre' = [pre EXCEPT ![t] = NoObs]
-  /\ UNCHANGED <<rcvars, ssv, okind, reg, lastAt, heldmx, edges>>
+  /\ UNCHANGED <<rcvars, ssv, okind, reg, lastAt, heldmx, ver, vbits, edges>>
 
 (* the nesting order of the object's mutexes is consistent across all threads: no potential deadlock (LockOrder!OrderConsistent) *)
 OrderConsistent == /\ \A e \in edges : <<e[2], e[1]>> \notin edges /\ e[1] # e[2]
